@@ -256,12 +256,12 @@ class Crazyflie():
                 logger.warning(message)
                 self.connection_failed.call(link_uri, message)
             else:
-                if not self.incoming.is_alive():
-                    self.incoming.start()
                 # Add a callback so we can check that any data is coming
                 # back from the copter
                 self.packet_received.add_callback(
                     self._check_for_initial_packet_cb)
+                if not self.incoming.is_alive():
+                    self.incoming.start()
 
                 self._start_connection_setup()
         except Exception as ex:  # pylint: disable=W0703
